@@ -398,6 +398,12 @@ func session(r *hx.Run, rng *gen.Rng, id string, sub uint32, disableMouse bool, 
 				vx.SetMouseShape(gen.Pick(rng, shapes))
 				r.Count("setmouseshape")
 			}
+			if disableMouse && i == n-1 && rng.Chance(1, 2) {
+				// round 4 (seeded C04-m8): the pointer shape is changed although mouse reporting is disabled
+				// (render() writes OSC 22 regardless): shutdown must still reset it to `text`
+				vx.SetMouseShape(vaxis.MouseShapeClickable)
+				r.Count("setmouseshape-with-mouse-disabled-in-last-frame")
+			}
 			if rng.Chance(1, 3) {
 				// the application changes the terminal's application id (written directly)
 				if b := fc.Take(); len(b) > 0 {
